@@ -126,7 +126,8 @@ impl<Endpoint: Display + PartialEq + Clone> Subject<Endpoint> {
         self.resources
             .entry(resource.to_string())
             .and_modify(|resource| {
-                resource.sequence += 1;
+                // Observe sequence numbers wrap (RFC 7641 3.4, 4.4).
+                resource.sequence = resource.sequence.wrapping_add(1);
 
                 resource.observers.iter_mut().for_each(|observer| {
                     observer.message_id = Some(message_id);
